@@ -42,10 +42,26 @@ CHECKS["C10"] = {
     "note": "domain: style-based sampling, or style off with homogeneous styles; polling rounds use a stub permutation of "
             "manifest positions; NaN risk read as 1",
 }
+CHECKS["C03"] = {
+    "engine": "AuditWorld", "ref": "DESIGN.md 4 (C03)",
+    "technique": "deterministic simulation of a whole-population audit with injected faults (unfindable cards, lost CVRs -> "
+                 "phantoms inside/outside pools, pooled batches, discrepancies, missing contests); oracle: the reduction "
+                 "identity over the whole population, pool means against a reference assorter; shrinking + replay",
+    "text": "seeded search over elections and fault plans; margins, pool means and overstatements come from the real code, "
+            "the identity mean(B)-1/2 = (2 mean(A)-1)/(2(2u-v)) is evaluated over every card for every assertion. Evidence, not proof.",
+    "note": "1e-9 relative tolerance; reference assorters written from the documentation are used only for pool means",
+}
+CHECKS["C06"] = {
+    "engine": "AuditWorld", "ref": "DESIGN.md 4 (C06)",
+    "technique": "deterministic simulation of multi-round audits of all three audit types with injected faults; runtime "
+                 "monitor on every (data, u) pair handed to a test and on the u installed; shrinking + replay",
+    "text": "seeded search over elections, fault plans (discrepancies of every size, phantoms, pooled CVRs, missing contests) "
+            "and round schedules; every datum, the returned bound, the installed bound and the set of contributing cards "
+            "are checked after every step. Evidence, not proof.",
+    "note": "positive margins only (as quantified); margins obtained both from CVRs and from tallies; 1e-12 slack on ranges",
+}
 # claimed in DESIGN.md but not built yet: listed as not applicable *for now* with the honest reason
 NA_EXTRA = {
-    "C03": "check under construction (DESIGN 4)",
-    "C06": "check under construction (DESIGN 4)",
     "C08": "check under construction (DESIGN 4)",
     "C09": "check under construction (DESIGN 4)",
     "C16": "check under construction (DESIGN 4)",
